@@ -90,6 +90,8 @@ def run_case(binary, proto, scratch, idx, case):
     try:
         if setting == "listen-addr":
             time.sleep(0.8)
+        elif s.addr is None:
+            s.wait_exit(3.0)      # its output ended without a "Listening" line: it is on its way out
         if not s.alive():
             obs["observed"] = "refused"
             obs["detail"] = "exit %s: %s" % (s.proc.returncode, " | ".join((s.err + s.lines)[-2:])[:300])
